@@ -377,10 +377,14 @@ def check_solution_lu(pat, prec, avals, x, b, trans, nrhs, permr, permc, LT, UT,
     return True, "ok"
 
 
-def exact_old_pivot_margin(pat, prec, avals, permr_old, permc, u):
-    """Eliminate Pr_old*A*Pc without further pivoting in exact arithmetic; for every column return the ratio
-    |pivot| / (u * max|candidates|).  Returns min ratio over columns (None if a zero pivot column is met),
-    so  >1 (with margin): every old pivot passes the threshold;  <1 (with margin): some old pivot fails."""
+def exact_old_pivot_margin(pat, prec, avals, permr_old, permc, u, mg):
+    """Eliminate Pr_old*A*Pc without further pivoting in exact arithmetic and decide, column by column, what the rule of
+    p?gstrf_pivotL.c:123-129 ( |old pivot| != 0 and |old pivot| >= u * max|candidates| ) must give, leaving a relative margin mg
+    for the rounding of the C code's values.  Returns (verdict, column, ratio^2):
+      'pass'      every old pivot certainly passes (either by the margin, or because it is itself the largest candidate by the
+                  margin: then pivmax IS that entry and fl(u*pivmax) <= pivmax for u <= 1 whatever the rounding);
+      'fail'      columns before `column` certainly pass and the old pivot of `column` certainly fails;
+      'ambiguous' otherwise (within the margin, or a zero column)."""
     n = pat["n"]; nc = NCOMP[prec]
     A = to_cq(avals, nc)
     M = [[None] * n for _ in range(n)]
@@ -388,32 +392,33 @@ def exact_old_pivot_margin(pat, prec, avals, permr_old, permc, u):
         for k in range(pat["colptr"][j], pat["colptr"][j + 1]):
             i = pat["rowind"][k]
             M[permr_old[i]][permc[j]] = A[k]
-    U = Fraction(u)
-    minratio = None; first_fail = None
+    U = Fraction(u); hi = (1 + mg) ** 2; lo = (1 - mg) ** 2
+    # the magnitude used by p?gstrf_pivotL: fabs for real, |re|+|im| (c_abs1/z_abs1) for complex; squared to keep one code path
+    def m2(z): return (abs(z.re) + abs(z.im)) ** 2
+    minr = None
     for k in range(n):
         piv = M[k][k]
-        cand = [M[i][k] for i in range(k, n) if M[i][k] is not None and not M[i][k].iszero()]
-        if not cand: return None, k
-        # the magnitude used by p?gstrf_pivotL: fabs for real, |re|+|im| (c_abs1/z_abs1) for complex; squared to keep one code path
-        def m2(z): return (abs(z.re) + abs(z.im)) ** 2
-        mx2 = max(m2(z) for z in cand)
         p2 = m2(piv) if piv is not None else Fraction(0)
-        if p2 == 0: return Fraction(0), k
-        ratio2 = p2 / (U * U * mx2) if U != 0 else None
-        if ratio2 is not None and (minratio is None or ratio2 < minratio):
-            minratio = ratio2; first_fail = k
-        # eliminate
+        others = [m2(M[i][k]) for i in range(k + 1, n) if M[i][k] is not None]
+        o2 = max(others) if others else Fraction(0)
+        mx2 = max(p2, o2)
+        if mx2 == 0: return "ambiguous", k, None
+        r2 = p2 / (U * U * mx2) if U != 0 else None
+        if r2 is not None and (minr is None or r2 < minr): minr = r2
+        sure_pass = p2 != 0 and ((r2 is not None and r2 >= hi) or (U <= 1 and p2 >= hi * o2))
+        sure_fail = p2 == 0 or (r2 is not None and r2 <= lo and not (U <= 1 and p2 >= lo * o2))
+        if sure_fail: return "fail", k, r2
+        if not sure_pass: return "ambiguous", k, r2
         den = piv.re * piv.re + piv.im * piv.im
         for i in range(k + 1, n):
             if M[i][k] is None or M[i][k].iszero(): continue
-            # l = M[i][k] / piv
             num = M[i][k] * piv.conj()
             l = CQ(num.re / den, num.im / den)
             for j in range(k + 1, n):
                 if M[k][j] is None: continue
                 t = l * M[k][j]
                 M[i][j] = (M[i][j] - t) if M[i][j] is not None else (CQ(Fraction(0), Fraction(0)) - t)
-    return minratio, first_fail     # squared ratio
+    return "pass", None, minr
 
 
 # ----------------------------------------------------------------------------------------- sizes used by p?memory.c (for K-exact)
@@ -458,6 +463,25 @@ HASH_KEYS = ("Aval", "Astr", "L", "U", "permr", "permc", "etree", "colcnt", "psu
 
 
 def evaluate_case(case, rc, res, err, margin=None):
+    """see _evaluate_case; outputs so damaged that an oracle cannot even be evaluated are themselves reported"""
+    try:
+        return _evaluate_case(case, rc, res, err, margin)
+    except Exception as e:        # e.g. row indices outside 0..n-1 in the printed factors
+        import traceback
+        tb = traceback.format_exc().strip().split("\n")
+        # find the first factor/solve op whose record trips the oracle, by evaluating growing prefixes
+        k = len(case["ops"])
+        for j in range(1, len(case["ops"]) + 1):
+            try:
+                _evaluate_case(dict(case, ops=case["ops"][:j]), 0, res[:j], "", margin)
+            except Exception:
+                k = j - 1; break
+        k = min(k, len(case["ops"]) - 1)
+        return [Fail(k, "outputs of op %d (%s) are malformed, oracle raised %s: %s" % (k, case["ops"][k]["op"], type(e).__name__, tb[-1][:200]),
+                     {"kind": "malformed_output", "op": case["ops"][k]["op"]})], {}
+
+
+def _evaluate_case(case, rc, res, err, margin=None):
     """Applies the C08 oracles to the per-op results.  Returns (fails, stats).
     fails: list of Fail; stats: dict of counters.  The tracker below follows only what the *caller* of the
     library knows (which values it passed to which call); it never looks at library internals."""
@@ -541,22 +565,21 @@ def evaluate_case(case, rc, res, err, margin=None):
                 if k == "refact" and o["usepr"] == 1 and permr_old is not None and is_perm(permr_old, n):
                     if r["usepr_after"] == 1 and r["permr"] != permr_old:
                         fails.append(Fail(i, "usepr stayed YES but perm_r changed", {"kind": "usepr_flag_vs_permr"}))
-                    m2, col = exact_old_pivot_margin(pat, prec, r["Aout"], permr_old, r["permc"], o["u"])
                     mg = Fraction(margin if margin is not None else (1e-3 if RSIZE[prec] == 4 else 1e-7))
-                    if m2 is not None and o["u"] > 0:
-                        if m2 >= (1 + mg) ** 2:
-                            cnt("usepr_all_pass")
-                            if r["permr"] != permr_old or r["usepr_after"] != 1:
-                                fails.append(Fail(i, "usepr=YES and every old pivot passes the threshold (min ratio^2 %.6g) but perm_r %s, usepr flag after=%d" %
-                                                  (float(m2), "changed" if r["permr"] != permr_old else "kept", r["usepr_after"]),
-                                                  {"kind": "usepr_not_honoured"}))
-                        elif m2 <= (1 - mg) ** 2:
-                            cnt("usepr_fallback")
-                            if r["usepr_after"] != 0 or r["permr"] == permr_old:
-                                fails.append(Fail(i, "usepr=YES, old pivot of column %s fails the threshold (ratio^2 %.6g) but perm_r kept / flag=%d" %
-                                                  (col, float(m2), r["usepr_after"]), {"kind": "usepr_no_fallback"}))
-                        else:
-                            cnt("usepr_ambiguous")
+                    verdict, col, r2 = exact_old_pivot_margin(pat, prec, r["Aout"], permr_old, r["permc"], o["u"], mg)
+                    if verdict == "pass":
+                        cnt("usepr_all_pass")
+                        if r["permr"] != permr_old or r["usepr_after"] != 1:
+                            fails.append(Fail(i, "usepr=YES and every old pivot passes the threshold u=%g (min ratio^2 %s) but perm_r %s, usepr flag after=%d" %
+                                              (o["u"], "%.6g" % float(r2) if r2 is not None else "-", "changed" if r["permr"] != permr_old else "kept", r["usepr_after"]),
+                                              {"kind": "usepr_not_honoured"}))
+                    elif verdict == "fail":
+                        cnt("usepr_fallback")
+                        if r["usepr_after"] != 0 or r["permr"] == permr_old:
+                            fails.append(Fail(i, "usepr=YES, old pivot of column %s fails the threshold (ratio^2 %.6g) but perm_r kept / flag=%d" %
+                                              (col, float(r2) if r2 is not None else 0.0, r["usepr_after"]), {"kind": "usepr_no_fallback"}))
+                    else:
+                        cnt("usepr_ambiguous")
                 S["lu"] = {"vals": o["vals"], "aout": r["Aout"], "f1": r.get("f1", 0), "op": i, "LT": r.get("LT", []), "UT": r.get("UT", []), "permr": r["permr"], "permc": r["permc"],
                            "equed": r["equed"], "ok": info == 0}
             else:
